@@ -90,6 +90,13 @@ func read[EntityT entity.Interface](def Definition, wrapper func(e *Entity) Enti
 		return *new(EntityT), err
 	}
 
+	return readCommit[EntityT](def, wrapper, repo, resolvers, rootHash)
+}
+
+// readCommit fetch from git and decode an Entity whose last commit is the given one.
+func readCommit[EntityT entity.Interface](def Definition, wrapper func(e *Entity) EntityT, repo repository.ClockedRepo, resolvers entity.Resolvers, rootHash repository.Hash) (EntityT, error) {
+	var err error
+
 	// Perform a depth-first search to get a topological order of the DAG: a commit is emitted once all
 	// its parents have been, so that we go forward in time from the chronological root.
 	// Note: a breadth-first search is not enough here, as with branches of different length a commit could
